@@ -80,6 +80,7 @@ def Cst.orderOk : Cst → Bool
   | .app f cs _ a => f.orderOk && appOrderOk cs && a.orderOk
   | .kw _ _ _ h _ _ _ _ b => h.orderOk && b.orderOk
   | .sel e _ _ _ _ => e.orderOk
+  | .selOr e _ _ _ _ _ _ _ d => e.orderOk && d.orderOk
 /-- An `assert` renders its trailing trivia (`after`) between its `;` and its body: a comment that the
     enclosing sequence attaches to an `assert` item (any comment after it: top level, parentheses) comes
     out in front of the body (`C03.cex_comment_after_assert`). The value of a binding is rendered without
@@ -107,6 +108,7 @@ def Cst.orderOkSeq : Cst → Bool
   | .app f _ _ a => f.orderOkSeq && a.orderOkSeq
   | .kw _ _ _ h _ _ _ _ b => h.orderOkSeq && b.orderOkSeq
   | .sel e _ _ _ _ => e.orderOkSeq
+  | .selOr e _ _ _ _ _ _ _ d => e.orderOkSeq && d.orderOkSeq
 def Items.orderOkSeq : Items → Mode → Prev → Bool → Bool → Bool
   | .nil, _, _, _, _ => true
   | .cmt g _ rest, m, prev, pending, hasItem =>
@@ -162,6 +164,7 @@ def Expr.effAfter : Expr → Bool → List Trivia
   | .wth _ _ _ _ _ _ a, na => if na then [] else a
   | .asrt _ _ _ _ _ a, na => if na then [] else a
   | .sel _ _ _ _ _ a, na => if na then [] else a
+  | .selOr _ _ _ _ _ _ _ _ a, na => if na then [] else a
 
 def closedB (ts : List Trivia) : Bool :=
   match ts.getLast? with
@@ -186,6 +189,7 @@ def Expr.inlineCleanB : Expr → Bool
   | .wth .. => false     -- `with` / `assert` / select: outside the spacing theorem so far (`File.basic`)
   | .asrt .. => false
   | .sel .. => false
+  | .selOr .. => false
 def allInlineCleanB : List Expr → Bool
   | [] => true
   | e :: rest => e.inlineCleanB && allInlineCleanB rest
@@ -213,6 +217,7 @@ def Expr.beforeFlatB : Expr → Bool
   | .wth .. => false     -- `with` / `assert` / select: outside the spacing theorem so far (`File.basic`)
   | .asrt .. => false
   | .sel .. => false
+  | .selOr .. => false
 def allBeforeFlatB : List Expr → Bool
   | [] => true
   | e :: rest => e.beforeFlatB && allBeforeFlatB rest
@@ -234,6 +239,7 @@ def Expr.beforeFlatG : Expr → Bool
   | .wth .. => false
   | .asrt .. => false
   | .sel .. => false
+  | .selOr .. => false
 def allBeforeFlatG : List Expr → Bool
   | [] => true
   | e :: rest => e.beforeFlatG && allBeforeFlatG rest
@@ -254,6 +260,7 @@ def Expr.beforeFlatP : Expr → Bool
   | .wth .. => false
   | .asrt .. => false
   | .sel .. => false
+  | .selOr .. => false
 def allBeforeFlatP : List Expr → Bool
   | [] => true
   | e :: rest => e.beforeFlatP && allBeforeFlatP rest
@@ -271,6 +278,7 @@ def Cst.orderOkNA : Cst → Bool
   | .app f cs _ a => f.orderOkNA && appOrderOk cs && a.orderOkNA
   | .kw _ _ _ h _ _ _ _ b => h.orderOkNA && b.orderOkNA
   | .sel e _ _ _ _ => e.orderOkNA
+  | .selOr e _ _ _ _ _ _ _ d => e.orderOkNA && d.orderOkNA
 def Items.orderOkNA : Items → Mode → Prev → Bool → Bool → Bool
   | .nil, _, _, _, _ => true
   | .cmt g _ rest, m, prev, pending, hasItem =>
@@ -298,6 +306,7 @@ def Cst.basic : Cst → Bool
   | .app f _ _ a => f.basic && a.basic
   | .kw .. => false
   | .sel .. => false
+  | .selOr .. => false
 def Items.basic : Items → Bool
   | .nil => true
   | .cmt _ _ rest => rest.basic
@@ -318,6 +327,7 @@ def Cst.cf : Cst → Bool
   | .app f cs _ a => f.cf && cs.isEmpty && a.cf
   | .kw .. => false     -- the normaliser `Cst.norm` does not cover `with` / `assert` / select yet
   | .sel .. => false
+  | .selOr .. => false
 def Items.cf : Items → Bool
   | .nil => true
   | .cmt _ _ _ => false
@@ -360,6 +370,7 @@ def Cst.norm : Cst → Nat → Cst
       (a.norm (if containsNL g then indentFromGap g else i))
   | .kw w c1 g1 h c2 g2 c3 g3 b, _ => .kw w c1 g1 h c2 g2 c3 g3 b     -- not covered by the normaliser
   | .sel e c1 g1 gd attrs, _ => .sel e c1 g1 gd attrs
+  | .selOr e c1 g1 gd attrs c2 g2 g3 d, _ => .selOr e c1 g1 gd attrs c2 g2 g3 d
 /-- items of a container that spans several lines, one per line at indentation `j` -/
 def Items.normML : Items → Nat → Items
   | .nil, _ => .nil
